@@ -239,7 +239,7 @@ Proof.
       intros Hs; injection Hs as Hs; subst s'; (eapply dinv_same; [exact Hd|exact He|frame3]).
   - (* restore *)
     destruct (nget (drains st) (goid (e_by e))) as [d|]; [|inv_some; exact Hd].
-    destruct (d_cancel d); [|discriminate]. destruct (_ && _); [|discriminate].
+    destruct (d_cancel d); [|discriminate]. destruct (tstate_eqb _ _) eqn:Hnd; [discriminate|]. destruct (_ && _); [|discriminate].
     destruct (notify st d (e_t e)) as [cs|] eqn:Hn; [|discriminate]. intros Hs; injection Hs as Hs; subst s'.
     destruct Hd as [Hok Hall]. split; [exact (lbs_ok_ext _ _ Hok He)|].
     cbn [cmds upd_drains upd_cmds]. eapply notify_cinv; [|exact Hn].
